@@ -277,6 +277,8 @@ def base_support(polys):
         elif g[0] == "arith":
             for o in g[1].operands:
                 todo |= patoms(o.p)
+            if len(g[1].operands) > 10:
+                base.add("zint")  # word-level arithmetic over many bits: the SMT back end, not 2^k native evaluations
         elif g[0] == "z3bool":
             base.add(("zint", g[1].get_id()))  # poison: forces the SMT back end and couples all int facts
             base.add("zint")
